@@ -106,6 +106,9 @@ pub enum Item {
     Hint { size: u64 },
     // file type reported for the script: 1 fifo, 2 character device (size 0, not seekable)
     FType { kind: u8 },
+    // FIFO semantics for a descriptor the program made non-blocking: mode 1 = no writer yet
+    // (reads return 0), mode 2 = the writer pauses (read n fails with EAGAIN once)
+    NbFifo { mode: u8, n: u64 },
     // script delivery stops after k bytes
     Eof { k: u64 },
     // stored byte at off replaced by bytes
@@ -125,6 +128,7 @@ impl Item {
             Item::RChunk { seed, max } => format!("rchunk={seed}:{max}"),
             Item::Hint { size } => format!("hint={size}"),
             Item::FType { kind } => format!("ftype={}", if *kind == 2 { "chr" } else { "fifo" }),
+            Item::NbFifo { mode, n } => if *mode == 1 { "nb=late".to_string() } else { format!("nb=slow:{n}") },
             Item::Eof { k } => format!("eof={k}"),
             Item::Flip { off, bytes } => format!("flip={off}:{}", hex(bytes)),
             Item::Kill { seq } => format!("kill={seq}"),
@@ -165,6 +169,13 @@ impl Item {
             }
             "hint" => Some(Item::Hint { size: val.parse().ok()? }),
             "ftype" => Some(Item::FType { kind: if val == "chr" { 2 } else { 1 } }),
+            "nb" => {
+                if val == "late" {
+                    Some(Item::NbFifo { mode: 1, n: 0 })
+                } else {
+                    Some(Item::NbFifo { mode: 2, n: val.strip_prefix("slow:")?.parse().ok()? })
+                }
+            }
             "eof" => Some(Item::Eof { k: val.parse().ok()? }),
             "flip" => {
                 let (a, b) = val.split_once(':')?;
@@ -180,7 +191,7 @@ impl Item {
             Item::Write { act, .. } | Item::Read { act, .. } | Item::Open { act, .. } | Item::Cwd { act, .. } => {
                 act.is_invisible()
             }
-            Item::WChunk { .. } | Item::RChunk { .. } | Item::Hint { .. } | Item::FType { .. } => true,
+            Item::WChunk { .. } | Item::RChunk { .. } | Item::Hint { .. } | Item::FType { .. } | Item::NbFifo { .. } => true,
             Item::Eof { .. } | Item::Flip { .. } | Item::Kill { .. } => false,
         }
     }
@@ -195,6 +206,7 @@ impl Item {
             Item::RChunk { .. } => "rchunk".to_string(),
             Item::Hint { .. } => "size-hint".to_string(),
             Item::FType { .. } => "file-type".to_string(),
+            Item::NbFifo { .. } => "nonblocking-fifo".to_string(),
             Item::Eof { .. } => "eof-early".to_string(),
             Item::Flip { .. } => "flip".to_string(),
             Item::Kill { .. } => "kill".to_string(),
